@@ -293,7 +293,7 @@ theorem attributeNameId_bound {env : Env} (hb : EnvBaseNs env) {frames : List (L
 
 /-- The attribute loop succeeded: every prefix is bound, the expanded names are pairwise different
     and different from the `keys` seen before, the ID values are new. -/
-theorem addAttributes_inv (frames' : List (List (Str × Str))) (node : Path) :
+theorem pnc_addAttributes_inv (frames' : List (List (Str × Str))) (node : Path) :
     ∀ (ords : List NSAttr) (st st' : AttrLoop) (keys : List (Str × Str)),
       EnvBaseNs st.env → FramesIn st.env frames' →
       (∀ k ∈ keys, k.1 ∈ st.env.namespaces ∧ (k.2, st.env.namespaces.idxOf k.1) ∈ st.env.names ∧
@@ -509,7 +509,7 @@ theorem openElement_inv {b b1 : Builder} {frames : List (List (Str × Str))} (hr
     | err e env => rw [ha] at h; cases h
     | ok st' =>
       rw [← idFrames_app happ1 hF] at ha
-      obtain ⟨i1, _, i3, i4, i5⟩ := addAttributes_inv (declsOf attrs :: frames) _ (ordinary attrs)
+      obtain ⟨i1, _, i3, i4, i5⟩ := pnc_addAttributes_inv (declsOf attrs :: frames) _ (ordinary attrs)
         { env := (((declIds b.env (declsOf attrs)).1.internNamespace u).1.internName loc.text
             ((declIds b.env (declsOf attrs)).1.internNamespace u).2).1,
           seenIds := b.seenIds, idNodes := b.idNodes, seenNames := [],
